@@ -31,6 +31,7 @@ def main():
     tier = "quick"
     also = []
     race = []
+    check_only = False
     while args:
         a = args.pop(0)
         if a == "--name":
@@ -41,6 +42,8 @@ def main():
             also = args.pop(0).split(",")
         elif a == "--race":
             race = ["-race"]
+        elif a == "--check-only":
+            check_only = True
     name = name or ("%s-%s" % (pid, os.path.basename(os.path.normpath(src))))
     patch = os.path.join(src, "patch.diff")
     demo = open(os.path.join(src, "demo_test.go")).read()
@@ -63,24 +66,38 @@ def main():
         if rc != 0:
             print("DOES NOT BUILD\n" + out[-1500:])
             return 3
-        rc, out = run(["go", "test", "-vet=off", "-count=1", "./..."], mut)
-        meta["suite_passes_with_change"] = rc == 0
+        if check_only:
+            rc, out = 0, ""
+            prevp = os.path.join("/verif/seeded", name, "meta.json")
+            if os.path.exists(prevp):
+                pm = json.load(open(prevp))
+                for k in ("suite_passes_with_change", "demo_fails_with_change", "demo_passes_without_change", "demo_cmd"):
+                    if k in pm:
+                        meta[k] = pm[k]
+        else:
+            rc, out = run(["go", "test", "-vet=off", "-count=1", "./..."], mut)
+            meta["suite_passes_with_change"] = rc == 0
         if rc != 0:
             print("EXISTING SUITE FAILS WITH THE CHANGE\n" + out[-2500:])
             return 3
         for d in (mut, clean):
+            if check_only:
+                break
             shutil.copy(os.path.join(src, "demo_test.go"), os.path.join(d, sub, "zz_seeded_demo_test.go"))
-        m = re.search(r'func (Test\w+)\(', demo)
         runpat = "^(%s)$" % "|".join(re.findall(r'func (Test\w+)\(', demo))
-        rc_m, out_m = run(["go", "test", "-vet=off", "-count=1"] + race + ["-run", runpat, "./" + sub], mut)
-        rc_c, out_c = run(["go", "test", "-vet=off", "-count=1"] + race + ["-run", runpat, "./" + sub], clean)
-        meta["demo_fails_with_change"] = rc_m != 0
-        meta["demo_passes_without_change"] = rc_c == 0
-        meta["demo_cmd"] = "go test -vet=off -count=1 %s-run '%s' ./%s" % ("-race " if race else "", runpat, sub)
+        if check_only:
+            rc_m, rc_c, out_m, out_c = 1, 0, "", ""
+        else:
+            rc_m, out_m = run(["go", "test", "-vet=off", "-count=1"] + race + ["-run", runpat, "./" + sub], mut)
+            rc_c, out_c = run(["go", "test", "-vet=off", "-count=1"] + race + ["-run", runpat, "./" + sub], clean)
+            meta["demo_fails_with_change"] = rc_m != 0
+            meta["demo_passes_without_change"] = rc_c == 0
+            meta["demo_cmd"] = "go test -vet=off -count=1 %s-run '%s' ./%s" % ("-race " if race else "", runpat, sub)
         if rc_m == 0 or rc_c != 0:
             print("DEMONSTRATION NOT CONFIRMED: with change rc=%d, without rc=%d\n%s\n----\n%s" % (rc_m, rc_c, out_m[-1500:], out_c[-1500:]))
             return 3
-        os.remove(os.path.join(mut, sub, "zz_seeded_demo_test.go"))
+        if not check_only:
+            os.remove(os.path.join(mut, sub, "zz_seeded_demo_test.go"))
         results = {}
         for cid in [pid] + also:
             t0 = time.time()
@@ -95,10 +112,11 @@ def main():
         meta["checks"] = results
         dst = os.path.join("/verif/seeded", name)
         os.makedirs(dst, exist_ok=True)
-        shutil.copy(patch, os.path.join(dst, "patch.diff"))
-        shutil.copy(os.path.join(src, "demo_test.go"), os.path.join(dst, "demo_test.go"))
-        if os.path.exists(os.path.join(src, "notes.md")):
-            shutil.copy(os.path.join(src, "notes.md"), os.path.join(dst, "notes.md"))
+        if os.path.realpath(src) != os.path.realpath(dst):
+            shutil.copy(patch, os.path.join(dst, "patch.diff"))
+            shutil.copy(os.path.join(src, "demo_test.go"), os.path.join(dst, "demo_test.go"))
+            if os.path.exists(os.path.join(src, "notes.md")):
+                shutil.copy(os.path.join(src, "notes.md"), os.path.join(dst, "notes.md"))
         prev = {}
         mp = os.path.join(dst, "meta.json")
         if os.path.exists(mp):
